@@ -4842,6 +4842,10 @@ pub(crate) fn rewind_to_chain_state<P: consensus::Parameters>(
     // bound of the rescan range we install above the rewind target.
     let chain_tip = chain_tip_height(conn).map_err(|e| RewindError::DataSource(e.into()))?;
 
+    // The lowest height whose block data (and scan queue entry) is removed below, if that
+    // is lower than the block above the rewind target.
+    let mut removed_from: Option<BlockHeight> = None;
+
     // Truncate wallet data above the pruning floor only when the target is below the wallet's
     // max scanned height; if the target is at or above the max scanned height, the wallet has
     // not yet scanned past the rewind point and there is nothing above it to remove.
@@ -4885,6 +4889,13 @@ pub(crate) fn rewind_to_chain_state<P: consensus::Parameters>(
 
         let truncation_height = window_floor.unwrap_or(pruning_floor);
 
+        // When no pool retains a checkpoint at or above the target, the truncation lands
+        // below it, and removes the block data and the scan queue entries of heights at or
+        // below the target too.
+        if truncation_height < target_height {
+            removed_from = Some(truncation_height + 1);
+        }
+
         // Use `truncate_to_height_internal` to perform full truncation of data within the
         // pruning window. Blocks above `target_height` are re-scanned by the `Historic`
         // range installed below, so `target_height` is the floor below which tree state must
@@ -4912,14 +4923,32 @@ pub(crate) fn rewind_to_chain_state<P: consensus::Parameters>(
     if let Some(t) = chain_tip
         && target_height < t
     {
-        let rescan_range = (target_height + 1)..(t + 1);
+        // Every height whose data was removed must be covered again: heights from the
+        // wallet's birthday upward are re-scanned, and what lies below it (the scan queue
+        // is trimmed down to the truncation height) is restored as `Ignored`.
+        let restore_start = removed_from.map_or(target_height + 1, |h| h.min(target_height + 1));
+        let rescan_start = match removed_from {
+            Some(_) => wallet_birthday(conn)
+                .map_err(|e| RewindError::DataSource(e.into()))?
+                .map_or(restore_start, |b| b.max(restore_start))
+                .min(target_height + 1),
+            None => target_height + 1,
+        };
+        let restore_range = restore_start..(t + 1);
+        let rescan_range = rescan_start..(t + 1);
         replace_queue_entries::<SqliteClientError>(
             conn,
-            &rescan_range,
-            std::iter::once(ScanRange::from_parts(
+            &restore_range,
+            Some(ScanRange::from_parts(
+                restore_start..rescan_start,
+                ScanPriority::Ignored,
+            ))
+            .filter(|r| !r.is_empty())
+            .into_iter()
+            .chain(std::iter::once(ScanRange::from_parts(
                 rescan_range.clone(),
                 ScanPriority::Historic,
-            )),
+            ))),
             true,
         )
         .map_err(RewindError::DataSource)?;
